@@ -9,12 +9,17 @@ type yieldAst struct {
 	funRetParamTy   ast.Expr // generator element type
 
 	callNormal *ast.CallExpr // for fast equivalence check
+
+	// function literals generated for this yield func (thunks, for cond / post);
+	// every other literal in its body was written by the user
+	generated map[*ast.FuncLit]bool
 }
 
 func mkYieldAst(seqName string, retParamTy ast.Expr) *yieldAst {
 	a := &yieldAst{
 		seqImportedName: seqName,
 		funRetParamTy:   retParamTy,
+		generated:       map[*ast.FuncLit]bool{},
 	}
 	a.callNormal = a.CallNormal()
 	return a
@@ -46,8 +51,13 @@ func (y *yieldAst) SeqCall(name string, args ...ast.Expr) *ast.CallExpr {
 	}
 }
 
+func (y *yieldAst) mark(lit *ast.FuncLit) *ast.FuncLit {
+	y.generated[lit] = true
+	return lit
+}
+
 func (y *yieldAst) Thunk(body *ast.BlockStmt) *ast.FuncLit {
-	return &ast.FuncLit{
+	return y.mark(&ast.FuncLit{
 		Type: &ast.FuncType{
 			Params: X.Fields(),
 			Results: X.Fields(
@@ -55,7 +65,7 @@ func (y *yieldAst) Thunk(body *ast.BlockStmt) *ast.FuncLit {
 			),
 		},
 		Body: body,
-	}
+	})
 }
 
 func (y *yieldAst) CallStart(body *ast.BlockStmt) *ast.CallExpr {
@@ -115,7 +125,7 @@ func (y *yieldAst) ForCondFun(cond ast.Expr) *ast.FuncLit {
 	if isNil(cond) {
 		return nil
 	}
-	return &ast.FuncLit{
+	return y.mark(&ast.FuncLit{
 		Type: &ast.FuncType{
 			Params: X.Fields(),
 			Results: X.Fields(
@@ -123,18 +133,18 @@ func (y *yieldAst) ForCondFun(cond ast.Expr) *ast.FuncLit {
 			),
 		},
 		Body: X.Block(X.Return(cond)),
-	}
+	})
 }
 
 func (y *yieldAst) ForPostFun(post ast.Stmt) *ast.FuncLit {
 	if isNil(post) {
 		return nil
 	}
-	return &ast.FuncLit{
+	return y.mark(&ast.FuncLit{
 		Type: &ast.FuncType{
 			Params:  X.Fields(),
 			Results: X.Fields(),
 		},
 		Body: X.Block(post),
-	}
+	})
 }
